@@ -72,10 +72,12 @@ Section P.
     match pc x with
     | WSampled w u ch => ch < nxt bb /\ (closed bb ch = true \/ u = v) /\ In u (skipn (start x) h)
     | WBlocked w u ch => ch < nxt bb /\ (closed bb ch = true \/ u = v) /\ In u (skipn (start x) h) /\ cond w u = VNo
-    | WRet w u ENone => In u (skipn (start x) h) /\ cond w u = VOk
+    | WRet w u ENone => In u (skipn (start x) h) /\ cond w u = VOk /\ is_watch w = false
     | WRet w u EValid => u = 0%N /\ exists y, In y (skipn (start x) h) /\ cond w y = VErr
     | WRet w u ECanceled => u = 0%N /\ (ctxc x = true \/ eclosed x = true)
     | WRet w u EErrCh => u = 0%N /\ esent x = true
+    | WRet w u ECb => u = 0%N /\ is_watch w = true
+    | WCb w u => In u (skipn (start x) h) /\ cond w u = VOk /\ is_watch w = true
     | _ => True
     end.
 
@@ -91,13 +93,14 @@ Section P.
     aok bb' v' (h ++ t) x.
   Proof.
     intros (Hs & Hq & Hp) Hn Hc Ho. split; [rewrite app_length; lia|]. split; [exact Hq|].
-    destruct (pc x) as [o|o r|w|w u ch|w u ch|w u [| | |]]; auto.
+    destruct (pc x) as [o|o r|w|w u ch|w u ch|w u [| | | |]|w u]; auto.
     - destruct Hp as (H1 & H2 & H3). split; [lia|]. split; [|now apply in_skipn_app].
       destruct H2 as [H2| ->]; [left; now apply Hc|]. destruct (Ho ch H1) as [H| ->]; auto.
     - destruct Hp as (H1 & H2 & H3 & H4). split; [lia|]. split; [|split; [now apply in_skipn_app | exact H4]].
       destruct H2 as [H2| ->]; [left; now apply Hc|]. destruct (Ho ch H1) as [H| ->]; auto.
     - destruct Hp as (H1 & H2). split; [now apply in_skipn_app | exact H2].
     - destruct Hp as (H1 & y & H2 & H3). split; [exact H1|]. exists y. split; [now apply in_skipn_app | exact H3].
+    - destruct Hp as (H1 & H2). split; [now apply in_skipn_app | exact H2].
   Qed.
 
   Lemma aok_same bb v h x : aok bb v h x -> aok bb v (h ++ []) x.
@@ -109,10 +112,12 @@ Section P.
     match p with
     | WSampled w u ch => ch < nxt bb /\ (closed bb ch = true \/ u = v) /\ In u (skipn (start x) h)
     | WBlocked w u ch => ch < nxt bb /\ (closed bb ch = true \/ u = v) /\ In u (skipn (start x) h) /\ cond w u = VNo
-    | WRet w u ENone => In u (skipn (start x) h) /\ cond w u = VOk
+    | WRet w u ENone => In u (skipn (start x) h) /\ cond w u = VOk /\ is_watch w = false
     | WRet w u EValid => u = 0%N /\ exists y, In y (skipn (start x) h) /\ cond w y = VErr
     | WRet w u ECanceled => u = 0%N /\ (ctxc x = true \/ eclosed x = true)
     | WRet w u EErrCh => u = 0%N /\ esent x = true
+    | WRet w u ECb => u = 0%N /\ is_watch w = true
+    | WCb w u => In u (skipn (start x) h) /\ cond w u = VOk /\ is_watch w = true
     | _ => True
     end -> aok bb v h (set_pc x p).
   Proof. intros (Hs & Hq & _) Hp. split; [exact Hs|]. split; [exact Hq|]. exact Hp. Qed.
@@ -164,7 +169,7 @@ Section P.
   Lemma step_inv s e : Inv s -> Inv (step s e).
   Proof.
     intros HI. pose proof HI as (Hwf & (l & Hl) & Ha).
-    destruct e as [o|w hc|a|a|a|a|a|a|a m|a]; cbn [Model.step].
+    destruct e as [o|w hc|a|a|a|a|a|a|a m|a|a cerr]; cbn [Model.step].
     - (* Call *) apply inv_app; [exact HI|]. split; [now apply vh_len|]. split; [intros []|exact I].
     - apply inv_app; [exact HI|]. split; [now apply vh_len|]. split; [intros []|exact I].
     - (* Sect *)
@@ -183,7 +188,7 @@ Section P.
         - apply aok_set_pc; [|exact I]. eapply aok_mono; eauto.
           + intros c Hc _. now apply bcast_closes.
           + intros c Hc. left. now apply bcast_closes. }
-      destruct (pc x) as [o|o r|w|w u ch|w u ch|w u ek] eqn:Ep; try exact HI.
+      destruct (pc x) as [o|o r|w|w u ch|w u ch|w u ek|w u] eqn:Ep; try exact HI.
       + destruct o as [|v|f]; [apply Hkeep | destruct (compare (val s) v); [apply Hkeep | apply Hstore] |].
         destruct f as [|k|k|]; [apply Hkeep | | |];
           match goal with |- context [if ?c then _ else _] => destruct c end; first [apply Hkeep | apply Hstore].
@@ -202,23 +207,24 @@ Section P.
           -- split; [exact Hlt|]. split; [now right|]. destruct Hx as (Hs & _). rewrite Hl in *. now apply in_skipn_last.
     - (* Eval *)
       destruct (nth_error (acts s) a) as [x|] eqn:G; [|exact HI]. pose proof (Ha _ _ G) as Hx.
-      destruct (pc x) as [o|o r|w|w u ch|w u ch|w u ek] eqn:Ep; try exact HI.
+      destruct (pc x) as [o|o r|w|w u ch|w u ch|w u ek|w u] eqn:Ep; try exact HI.
       pose proof Hx as (_ & _ & Hp). rewrite Ep in Hp. destruct Hp as (H1 & H2 & H3).
       destruct (cond w u) eqn:Ec; rewrite (seta_eq _ _ _ _ G); apply inv_upd_same; auto; apply aok_set_pc; auto.
-      split; [reflexivity|]. now exists u.
+      + unfold ok_pc. destruct w; cbn [is_watch]; auto.
+      + split; [reflexivity|]. now exists u.
     - (* Wake *)
       destruct (nth_error (acts s) a) as [x|] eqn:G; [|exact HI]. pose proof (Ha _ _ G) as Hx.
-      destruct (pc x) as [o|o r|w|w u ch|w u ch|w u ek] eqn:Ep; try exact HI.
+      destruct (pc x) as [o|o r|w|w u ch|w u ch|w u ek|w u] eqn:Ep; try exact HI.
       destruct (closed (b s) ch); [|exact HI].
       rewrite (seta_eq _ _ _ _ G); apply inv_upd_same; auto; apply aok_set_pc; auto.
     - (* CancelWake *)
       destruct (nth_error (acts s) a) as [x|] eqn:G; [|exact HI]. pose proof (Ha _ _ G) as Hx.
-      destruct (pc x) as [o|o r|w|w u ch|w u ch|w u ek] eqn:Ep; try exact HI.
+      destruct (pc x) as [o|o r|w|w u ch|w u ch|w u ek|w u] eqn:Ep; try exact HI.
       destruct (ctxc x) eqn:Ec; [|exact HI].
       rewrite (seta_eq _ _ _ _ G); apply inv_upd_same; auto; apply aok_set_pc; auto.
     - (* ErrWake *)
       destruct (nth_error (acts s) a) as [x|] eqn:G; [|exact HI]. pose proof (Ha _ _ G) as Hx.
-      destruct (pc x) as [o|o r|w|w u ch|w u ch|w u ek] eqn:Ep; try exact HI.
+      destruct (pc x) as [o|o r|w|w u ch|w u ch|w u ek|w u] eqn:Ep; try exact HI.
       destruct Hx as (Hs & Hq & Hp).
       destruct (errq x) as [|[|] q] eqn:Eq.
       + destruct (eclosed x) eqn:Ec; [|exact HI].
@@ -231,7 +237,7 @@ Section P.
     - (* CancelCtx *)
       destruct (nth_error (acts s) a) as [x|] eqn:G; [|exact HI]. pose proof (Ha _ _ G) as Hx.
       apply inv_upd_same; auto. destruct Hx as (Hs & Hq & Hp). split; [exact Hs|]. split; [exact Hq|].
-      cbn [pc ctxc eclosed esent start]. destruct (pc x) as [o|o r|w|w u ch|w u ch|w u [| | |]]; auto.
+      cbn [pc ctxc eclosed esent start]. destruct (pc x) as [o|o r|w|w u ch|w u ch|w u [| | | |]|w u]; auto.
       destruct Hp as [Hp _]. split; [exact Hp | now left].
     - (* ErrSend *)
       destruct (nth_error (acts s) a) as [x|] eqn:G; [|exact HI]. pose proof (Ha _ _ G) as Hx.
@@ -239,14 +245,20 @@ Section P.
       apply inv_upd_same; auto. destruct Hx as (Hs & Hq & Hp). split; [exact Hs|]. cbn [pc ctxc eclosed esent start errq].
       split.
       + rewrite in_app_iff. intros [H|[H|[]]]; [rewrite Hq by exact H; reflexivity | subst m; now rewrite orb_true_r].
-      + destruct (pc x) as [o|o r|w|w u ch|w u ch|w u [| | |]]; auto.
+      + destruct (pc x) as [o|o r|w|w u ch|w u ch|w u [| | | |]|w u]; auto.
         destruct Hp as [Hp1 Hp2]. split; [exact Hp1 | now rewrite Hp2].
     - (* ErrClose *)
       destruct (nth_error (acts s) a) as [x|] eqn:G; [|exact HI]. pose proof (Ha _ _ G) as Hx.
       destruct (hasch x); [|exact HI].
       apply inv_upd_same; auto. destruct Hx as (Hs & Hq & Hp). split; [exact Hs|]. split; [exact Hq|].
-      cbn [pc ctxc eclosed esent start]. destruct (pc x) as [o|o r|w|w u ch|w u ch|w u [| | |]]; auto.
+      cbn [pc ctxc eclosed esent start]. destruct (pc x) as [o|o r|w|w u ch|w u ch|w u [| | | |]|w u]; auto.
       destruct Hp as [Hp _]. split; [exact Hp | now right].
+    - (* CbRet *)
+      destruct (nth_error (acts s) a) as [x|] eqn:G; [|exact HI]. pose proof (Ha _ _ G) as Hx.
+      destruct (pc x) as [o|o r|w|w u ch|w u ch|w u ek|w u] eqn:Ep; try exact HI.
+      pose proof Hx as (Hs & Hq & Hp). rewrite Ep in Hp. destruct Hp as (_ & _ & Hw). destruct cerr.
+      + rewrite (seta_eq _ _ _ _ G); apply inv_upd_same; auto; apply aok_set_pc; auto.
+      + apply inv_upd_same; auto. split; [cbn [start set_pc_start]; now apply vh_len|]. split; [exact Hq | exact I].
   Qed.
 
   Theorem run_inv v0 es : Inv (run v0 es).
@@ -256,24 +268,26 @@ Section P.
   Lemma vh_tracks s e :
     (vh (step s e) = vh s /\ val (step s e) = val s) \/ vh (step s e) = vh s ++ [val (step s e)].
   Proof.
-    destruct e as [o|w hc|a|a|a|a|a|a|a m|a]; cbn [Model.step]; try (left; split; reflexivity).
+    destruct e as [o|w hc|a|a|a|a|a|a|a m|a|a cerr]; cbn [Model.step]; try (left; split; reflexivity).
     all: destruct (nth_error (acts s) a) as [x|] eqn:G; [|left; split; reflexivity].
-    - destruct (pc x) as [o|o r|w|w u ch|w u ch|w u ek] eqn:Ep; try (left; split; reflexivity).
+    - destruct (pc x) as [o|o r|w|w u ch|w u ch|w u ek|w u] eqn:Ep; try (left; split; reflexivity).
       + destruct o as [|v|[|k|k|]]; try (left; split; reflexivity);
           match goal with |- context [if ?c then _ else _] => destruct c end;
           first [left; split; reflexivity | right; reflexivity].
       + destruct (getch (b s)); left; split; reflexivity.
-    - destruct (pc x) as [o|o r|w|w u ch|w u ch|w u ek] eqn:Ep; try (left; split; reflexivity).
+    - destruct (pc x) as [o|o r|w|w u ch|w u ch|w u ek|w u] eqn:Ep; try (left; split; reflexivity).
       destruct (cond w u); left; split; reflexivity.
-    - destruct (pc x) as [o|o r|w|w u ch|w u ch|w u ek] eqn:Ep; try (left; split; reflexivity).
+    - destruct (pc x) as [o|o r|w|w u ch|w u ch|w u ek|w u] eqn:Ep; try (left; split; reflexivity).
       destruct (closed (b s) ch); left; split; reflexivity.
-    - destruct (pc x) as [o|o r|w|w u ch|w u ch|w u ek] eqn:Ep; try (left; split; reflexivity).
+    - destruct (pc x) as [o|o r|w|w u ch|w u ch|w u ek|w u] eqn:Ep; try (left; split; reflexivity).
       destruct (ctxc x); left; split; reflexivity.
-    - destruct (pc x) as [o|o r|w|w u ch|w u ch|w u ek] eqn:Ep; try (left; split; reflexivity).
+    - destruct (pc x) as [o|o r|w|w u ch|w u ch|w u ek|w u] eqn:Ep; try (left; split; reflexivity).
       destruct (errq x) as [|[|] q]; try (left; split; reflexivity). destruct (eclosed x); left; split; reflexivity.
     - left; split; reflexivity.
     - destruct (hasch x && negb (eclosed x)); left; split; reflexivity.
     - destruct (hasch x); left; split; reflexivity.
+    - destruct (pc x) as [o|o r|w|w u ch|w u ch|w u ek|w u] eqn:Ep; try (left; split; reflexivity).
+      destruct cerr; left; split; reflexivity.
   Qed.
 
   (* ---------------------------------------------------------------- *)
@@ -284,7 +298,7 @@ Section P.
     nth_error (acts s) a = Some x -> pc x = WRet w v ENone -> In v (held s x) /\ cond w v = VOk.
   Proof.
     cbn. intros G Ep. destruct (run_inv v0 es) as (_ & _ & Ha). destruct (Ha _ _ G) as (_ & _ & Hp).
-    rewrite Ep in Hp. exact Hp.
+    rewrite Ep in Hp. split; [exact (proj1 Hp) | exact (proj1 (proj2 Hp))].
   Qed.
 
   Theorem waiter_sample_held v0 es a x w v ch :
@@ -333,10 +347,78 @@ Section P.
     | ECanceled => v = 0%N /\ (ctxc x = true \/ eclosed x = true)
     | EErrCh => v = 0%N /\ esent x = true
     | EValid => v = 0%N /\ exists y, In y (held s x) /\ cond w y = VErr
+    | ECb => v = 0%N /\ is_watch w = true
     end.
   Proof.
     cbn. intros G Ep. destruct (run_inv v0 es) as (_ & _ & Ha). destruct (Ha _ _ G) as (_ & _ & Hp).
     rewrite Ep in Hp. destruct e; auto.
+  Qed.
+
+  (* ---- WatchChanges ---- *)
+  Lemma cond_watch cur v : cond (WWatch cur) v = if compare cur v then VNo else VOk.
+  Proof. reflexivity. Qed.
+
+  (* the callback is entered only by a watcher, with a value the cell held during this round's wait
+     ([held]: from the moment the round began) and that differs from the watcher's current value *)
+  Theorem watch_callback_value v0 es a x w v :
+    let s := run v0 es in
+    nth_error (acts s) a = Some x -> pc x = WCb w v ->
+    exists cur, w = WWatch cur /\ In v (held s x) /\ compare cur v = false.
+  Proof.
+    cbn. intros G Ep. destruct (run_inv v0 es) as (_ & _ & Ha). destruct (Ha _ _ G) as (_ & _ & Hp).
+    rewrite Ep in Hp. destruct Hp as (H1 & H2 & H3). destruct w as [|old| |p k|cur]; try discriminate.
+    exists cur. split; [reflexivity|]. split; [exact H1|]. rewrite cond_watch in H2. now destruct (compare cur v).
+  Qed.
+
+  (* the rounds: when the callback returns nil the next round starts at the entry gate with current := the
+     delivered value and [held] restarting at the present content; when it returns an error, that is returned *)
+  Lemma watch_callback_return s a x w v :
+    nth_error (acts s) a = Some x -> pc x = WCb w v ->
+    step s (CbRet a false) = with_acts s (set_nth (acts s) a (set_pc_start x (WGate (WWatch v)) (length (vh s) - 1))) /\
+    step s (CbRet a true) = with_acts s (set_nth (acts s) a (set_pc x (WRet w 0 ECb))).
+  Proof. intros G Ep. cbn [Model.step]. rewrite G, Ep, (seta_eq _ _ _ _ G). split; reflexivity. Qed.
+
+  (* ... and the callback is entered exactly where WaitValueChange current would return *)
+  Lemma watch_delivery s a x cur v ch :
+    nth_error (acts s) a = Some x -> pc x = WSampled (WWatch cur) v ch ->
+    step s (Eval a) = with_acts s (set_nth (acts s) a (set_pc x (if compare cur v then WBlocked (WWatch cur) v ch else WCb (WWatch cur) v))).
+  Proof.
+    intros G Ep. cbn [Model.step]. rewrite G, Ep, cond_watch. destruct (compare cur v); now rewrite (seta_eq _ _ _ _ G).
+  Qed.
+
+  (* at quiescence a watcher is not blocked in its wait while the content differs from its current value *)
+  Theorem watcher_quiescent v0 es a x cur u ch :
+    let s := run v0 es in
+    quiescent s = true -> nth_error (acts s) a = Some x -> pc x = WBlocked (WWatch cur) u ch ->
+    u = val s /\ compare cur (val s) = true.
+  Proof.
+    cbn. intros Hq G Ep. destruct (waiter_quiescent v0 es a x _ u ch Hq G Ep) as [Hu Hc]. split; [exact Hu|].
+    rewrite cond_watch in Hc. now destruct (compare cur (val (run v0 es))).
+  Qed.
+
+  (* WatchChanges returns only an error (context / error channel with a source that fired, or the callback's own),
+     never nil and never a validator error; nobody else enters a callback or returns a callback error *)
+  Theorem watcher_returns v0 es a x w v e :
+    let s := run v0 es in
+    nth_error (acts s) a = Some x -> pc x = WRet w v e ->
+    if is_watch w then v = 0%N /\ match e with
+                                 | ECanceled => ctxc x = true \/ eclosed x = true
+                                 | EErrCh => esent x = true
+                                 | ECb => True
+                                 | ENone | EValid => False
+                                 end
+    else e <> ECb.
+  Proof.
+    cbn. intros G Ep. destruct (run_inv v0 es) as (_ & _ & Ha). destruct (Ha _ _ G) as (_ & _ & Hp).
+    rewrite Ep in Hp. destruct (is_watch w) eqn:Ew.
+    - destruct e.
+      + destruct Hp as (_ & _ & H). congruence.
+      + exact Hp.
+      + exact Hp.
+      + destruct Hp as (_ & y & _ & H). destruct w as [|old| |p k|cur]; try discriminate.
+        rewrite cond_watch in H. now destruct (compare cur y).
+      + split; [exact (proj1 Hp) | exact I].
+    - intros ->. destruct Hp as (_ & H). congruence.
   Qed.
 End P.
 
@@ -362,7 +444,7 @@ Proof. destruct o as [|v|[|k|k|]]; try reflexivity. destruct k as [|[p|p|]]; ref
 Lemma cnt_done_swap1 l : cnt done_swap1 l = cnt dsw (map opc l).
 Proof.
   induction l as [|x t IH]; [reflexivity|]. cbn [map]. rewrite !cnt_cons, IH. f_equal.
-  unfold done_swap1, dsw, opc. destruct (pc x) as [o|o r|w|w u ch|w u ch|w u ek]; try reflexivity.
+  unfold done_swap1, dsw, opc. destruct (pc x) as [o|o r|w|w u ch|w u ch|w u ek|w u]; try reflexivity.
   all: destruct o as [|v|[|k|k|]]; try reflexivity; destruct k as [|[p|p|]]; reflexivity.
 Qed.
 
@@ -387,24 +469,25 @@ Section Lin.
 
   Ltac view_same G :=
     repeat split; try reflexivity; cbn [acts with_acts]; rewrite ?(seta_eq _ _ _ _ G);
-    apply (map_opc_set_nth _ _ _ _ G); unfold opc; cbn [pc set_pc];
+    apply (map_opc_set_nth _ _ _ _ G); unfold opc; cbn [pc set_pc set_pc_start];
     repeat match goal with H : pc _ = _ |- _ => rewrite H end; reflexivity.
 
   Lemma step_view_other s e : view_step s e = false ->
     val (step s e) = val s /\ lin (step s e) = lin s /\ map opc (acts (step s e)) = map opc (acts s).
   Proof.
-    destruct e as [o|w hc|a|a|a|a|a|a|a m|a]; cbn [view_step Model.step]; try discriminate; intros Hw.
+    destruct e as [o|w hc|a|a|a|a|a|a|a m|a|a cerr]; cbn [view_step Model.step]; try discriminate; intros Hw.
     all: destruct (nth_error (acts s) a) as [x|] eqn:G; [|auto].
-    - destruct (pc x) as [o|o r|w|w u ch|w u ch|w u ek] eqn:Ep; try discriminate; auto.
+    - destruct (pc x) as [o|o r|w|w u ch|w u ch|w u ek|w u] eqn:Ep; try discriminate; auto.
       destruct (getch (b s)) as [b' ch']. cbn [val lin acts]. view_same G.
-    - destruct (pc x) as [o|o r|w|w u ch|w u ch|w u ek] eqn:Ep; auto. destruct (cond eqv w u); view_same G.
-    - destruct (pc x) as [o|o r|w|w u ch|w u ch|w u ek] eqn:Ep; auto. destruct (closed (b s) ch); [view_same G | auto].
-    - destruct (pc x) as [o|o r|w|w u ch|w u ch|w u ek] eqn:Ep; auto. destruct (ctxc x); [view_same G | auto].
-    - destruct (pc x) as [o|o r|w|w u ch|w u ch|w u ek] eqn:Ep; auto.
+    - destruct (pc x) as [o|o r|w|w u ch|w u ch|w u ek|w u] eqn:Ep; auto. destruct (cond eqv w u); try (unfold ok_pc; destruct w); view_same G.
+    - destruct (pc x) as [o|o r|w|w u ch|w u ch|w u ek|w u] eqn:Ep; auto. destruct (closed (b s) ch); [view_same G | auto].
+    - destruct (pc x) as [o|o r|w|w u ch|w u ch|w u ek|w u] eqn:Ep; auto. destruct (ctxc x); [view_same G | auto].
+    - destruct (pc x) as [o|o r|w|w u ch|w u ch|w u ek|w u] eqn:Ep; auto.
       destruct (errq x) as [|[|] q]; [destruct (eclosed x); [view_same G | auto] | view_same G | view_same G].
     - view_same G.
     - destruct (hasch x && negb (eclosed x)); [view_same G | auto].
     - destruct (hasch x); [view_same G | auto].
+    - destruct (pc x) as [o|o r|w|w u ch|w u ch|w u ek|w u] eqn:Ep; auto. destruct cerr; view_same G.
   Qed.
 
   (* the critical section of Get/Set/Swap is one step of the sequential cell *)
@@ -466,11 +549,11 @@ Section Lin.
   Lemma step_linv v0 s e : linv v0 s -> linv v0 (step s e).
   Proof.
     intros HI. unfold linv in *. destruct (view_step s e) eqn:Ev.
-    - destruct e as [o|w hc|a|a|a|a|a|a|a m|a]; cbn [view_step] in Ev; try discriminate.
+    - destruct e as [o|w hc|a|a|a|a|a|a|a m|a|a cerr]; cbn [view_step] in Ev; try discriminate.
       + cbn [Model.step with_acts val lin acts]. rewrite map_app. exact (linv_app _ _ _ _ (Some o) HI).
       + cbn [Model.step with_acts val lin acts]. rewrite map_app. exact (linv_app _ _ _ _ None HI).
       + destruct (nth_error (acts s) a) as [x|] eqn:G; [|discriminate].
-        destruct (pc x) as [o|o r|w|w u ch|w u ch|w u ek] eqn:Ep; try discriminate.
+        destruct (pc x) as [o|o r|w|w u ch|w u ch|w u ek|w u] eqn:Ep; try discriminate.
         destruct (sect_writer s a x o G Ep) as (E1 & E2 & E3). rewrite E1, E2, E3, map_set_nth, opc_done. apply linv_sect; [exact HI | now apply (opc_gate s a x)].
     - destruct (step_view_other s e Ev) as (E1 & E2 & E3). now rewrite E1, E2, E3.
   Qed.
@@ -506,7 +589,7 @@ Section Lin.
     JInv v0 (val s) (map opc (acts s)) -> JInv v0 (val (step s e)) (map opc (acts (step s e))).
   Proof.
     intros Heq He (J1 & J2). destruct (view_step s e) eqn:Ev.
-    - destruct e as [o|w hc|a|a|a|a|a|a|a m|a]; cbn [view_step] in Ev; try discriminate.
+    - destruct e as [o|w hc|a|a|a|a|a|a|a m|a|a cerr]; cbn [view_step] in Ev; try discriminate.
       + cbn [Model.step with_acts val acts]. rewrite map_app. cbn [map]. unfold opc at 2. cbn [pc new_actor]. split.
         * intros a o' r Hk. apply nth_error_app_inv in Hk as [Hk|Hk]; [eauto|]. inversion Hk; subst o' r.
           cbn [only_incr] in He. destruct o as [|v|[|k|k|]]; try contradiction; auto.
@@ -516,7 +599,7 @@ Section Lin.
         * intros a o' r Hk. apply nth_error_app_inv in Hk as [Hk|Hk]; [eauto | discriminate].
         * rewrite cnt_app, cnt_cons, cnt_nil. cbn [dsw b2n]. rewrite J2. lia.
       + destruct (nth_error (acts s) a) as [x|] eqn:G; [|discriminate].
-        destruct (pc x) as [o|o r|w|w u ch|w u ch|w u ek] eqn:Ep; try discriminate.
+        destruct (pc x) as [o|o r|w|w u ch|w u ch|w u ek|w u] eqn:Ep; try discriminate.
         destruct (sect_writer s a x o G Ep) as (E1 & _ & E3). rewrite E1, E3, map_set_nth, opc_done. pose proof (opc_gate s a x o G Ep) as Hg.
         pose proof (nth_error_nth_len _ _ _ Hg) as Hl.
         pose proof (cnt_set_nth dsw (map opc (acts s)) a (Some (o, Some (snd (cell_step (val s) o)))) None Hl) as HC.
@@ -591,7 +674,7 @@ Proof. intros H. unfold upd. now rewrite H. Qed.
 Definition kind_of (p : apc) : mkind :=
   match p with
   | PGate o | PDone o _ => MKOp o
-  | WGate w | WSampled w _ _ | WBlocked w _ _ | WRet w _ _ => MKWait w
+  | WGate w | WSampled w _ _ | WBlocked w _ _ | WRet w _ _ | WCb w _ => MKWait w
   end.
 
 Definition absA (h : list N) (x : actor) : mactor :=
@@ -618,7 +701,7 @@ Section MS.
     lin (step s (Wake k)) = lin s /\ acts (step s (Wake k)) = set_nth (acts s) k (wake (b s) x).
   Proof.
     intros G. cbn [Model.step]. rewrite G. unfold wake.
-    destruct (pc x) as [o|o r|w|w u ch|w u ch|w u ek] eqn:Ep; try (repeat split; symmetry; now apply set_nth_same).
+    destruct (pc x) as [o|o r|w|w u ch|w u ch|w u ek|w u] eqn:Ep; try (repeat split; symmetry; now apply set_nth_same).
     destruct (closed (b s) ch); [|repeat split; symmetry; now apply set_nth_same].
     cbn [with_acts b val vh lin acts]. now rewrite (seta_eq _ _ _ _ G).
   Qed.
@@ -650,7 +733,7 @@ Section MS.
   Proof.
     destruct (settle_spec s) as (E1 & _ & _ & _ & E5). intros a x' w u ch G Ep. rewrite E1. rewrite E5 in G.
     rewrite nth_error_map in G. destruct (nth_error (acts s) a) as [x|]; [|discriminate]. cbn in G. inversion G as [Hx]. clear G.
-    unfold wake in *. destruct (pc x) as [o|o r|w0|w0 u0 ch0|w0 u0 ch0|w0 u0 ek] eqn:Ep0; subst x'; try congruence.
+    unfold wake in *. destruct (pc x) as [o|o r|w0|w0 u0 ch0|w0 u0 ch0|w0 u0 ek|w0 u0] eqn:Ep0; subst x'; try congruence.
     destruct (closed (b s) ch0) eqn:Ec; [cbn [pc set_pc] in Ep; discriminate|]. congruence.
   Qed.
 
@@ -661,7 +744,7 @@ Section MS.
     chk_actor eqv v q (absA h x, code x) = [].
   Proof.
     intros (Hs & Hq & Hp) He. unfold chk_actor, absA, code. cbn [mkd mheld mcanc mclosed msent].
-    destruct (pc x) as [o|o r|w|w u ch|w u ch|w u ek] eqn:Ep; cbn [kind_of]; try reflexivity.
+    destruct (pc x) as [o|o r|w|w u ch|w u ch|w u ek|w u] eqn:Ep; cbn [kind_of]; try reflexivity.
     - replace (st_of 1) with 1%N by reflexivity. cbn [N.eqb Pos.eqb andb app]. now rewrite andb_false_r.
     - replace (st_of 7) with 7%N by reflexivity. cbn [N.eqb Pos.eqb andb app]. now rewrite andb_false_r.
     - replace (st_of 2) with 2%N by reflexivity. cbn [N.eqb Pos.eqb andb app].
@@ -669,7 +752,7 @@ Section MS.
       subst u. rewrite H4. cbn [is_ok]. now rewrite andb_false_r.
     - destruct ek.
       + rewrite st_of_code, val_of_code by reflexivity. cbn [N.eqb Pos.eqb andb app]. rewrite andb_false_r. cbn [app].
-        destruct Hp as (H1 & H2).
+        destruct Hp as (H1 & H2 & _).
         assert (Hm : memN u (skipn (start x) h) = true).
         { unfold memN. apply existsb_exists. exists u. split; [exact H1 | apply N.eqb_refl]. }
         assert (Hx : existsb (fun y => is_ok (cond w y)) (skipn (start x) h) = true).
@@ -684,6 +767,12 @@ Section MS.
         assert (Hx : existsb (fun y => is_err (cond w y)) (skipn (start x) h) = true).
         { apply existsb_exists. exists y. split; [exact H1 | now rewrite H2]. }
         now rewrite Hx.
+      + rewrite st_of_code by reflexivity. cbn [N.eqb Pos.eqb andb app]. now rewrite andb_false_r.
+    - rewrite st_of_code, val_of_code by reflexivity. cbn [N.eqb Pos.eqb andb app]. rewrite andb_false_r. cbn [app].
+      destruct Hp as (H1 & H2 & _).
+      assert (Hm : memN u (skipn (start x) h) = true).
+      { unfold memN. apply existsb_exists. exists u. split; [exact H1 | apply N.eqb_refl]. }
+      rewrite Hm, H2. reflexivity.
   Qed.
 
   Lemma chk_all s q : Inv s -> Eager s ->
@@ -701,18 +790,22 @@ Section MS.
   Lemma step_frame s e : (forall a, e <> Sect a) ->
     b (step s e) = b s /\ val (step s e) = val s /\ vh (step s e) = vh s.
   Proof.
-    intros Hne. destruct e as [o|w hc|a|a|a|a|a|a|a m|a]; cbn [Model.step]; try (repeat split; reflexivity);
-      [exfalso; now apply (Hne a)| | | | | | |].
+    intros Hne. destruct e as [o|w hc|a|a|a|a|a|a|a m|a|a cerr]; cbn [Model.step]; try (repeat split; reflexivity);
+      [exfalso; now apply (Hne a)| | | | | | | |].
     all: destruct (nth_error (acts s) a) as [x|] eqn:G; [|repeat split; reflexivity].
-    - destruct (pc x) as [o|o r|w|w u ch|w u ch|w u ek]; try (repeat split; reflexivity). destruct (cond w u); repeat split; reflexivity.
-    - destruct (pc x) as [o|o r|w|w u ch|w u ch|w u ek]; try (repeat split; reflexivity). destruct (closed (b s) ch); repeat split; reflexivity.
-    - destruct (pc x) as [o|o r|w|w u ch|w u ch|w u ek]; try (repeat split; reflexivity). destruct (ctxc x); repeat split; reflexivity.
-    - destruct (pc x) as [o|o r|w|w u ch|w u ch|w u ek]; try (repeat split; reflexivity).
+    - destruct (pc x) as [o|o r|w|w u ch|w u ch|w u ek|w u]; try (repeat split; reflexivity). destruct (cond w u); repeat split; reflexivity.
+    - destruct (pc x) as [o|o r|w|w u ch|w u ch|w u ek|w u]; try (repeat split; reflexivity). destruct (closed (b s) ch); repeat split; reflexivity.
+    - destruct (pc x) as [o|o r|w|w u ch|w u ch|w u ek|w u]; try (repeat split; reflexivity). destruct (ctxc x); repeat split; reflexivity.
+    - destruct (pc x) as [o|o r|w|w u ch|w u ch|w u ek|w u]; try (repeat split; reflexivity).
       destruct (errq x) as [|[|] q]; try (repeat split; reflexivity). destruct (eclosed x); repeat split; reflexivity.
     - repeat split; reflexivity.
     - destruct (hasch x && negb (eclosed x)); repeat split; reflexivity.
     - destruct (hasch x); repeat split; reflexivity.
+    - destruct (pc x) as [o|o r|w|w u ch|w u ch|w u ek|w u]; try (repeat split; reflexivity). destruct cerr; repeat split; reflexivity.
   Qed.
+
+  Lemma kind_of_ok_pc w v : kind_of (ok_pc w v) = MKWait w.
+  Proof. destruct w; reflexivity. Qed.
 
   Ltac absv_same G :=
     unfold absv; cbn [acts vh with_acts]; rewrite ?(seta_eq _ _ _ _ G);
@@ -723,10 +816,10 @@ Section MS.
     match e with Eval _ | Wake _ | CancelWake _ | ErrWake _ => True | _ => False end ->
     absv (step s e) = absv s.
   Proof.
-    destruct e as [o|w hc|a|a|a|a|a|a|a m|a]; try contradiction; intros _; cbn [Model.step].
+    destruct e as [o|w hc|a|a|a|a|a|a|a m|a|a cerr]; try contradiction; intros _; cbn [Model.step].
     all: destruct (nth_error (acts s) a) as [x|] eqn:G; [|reflexivity].
-    all: destruct (pc x) as [o|o r|w|w u ch|w u ch|w u ek] eqn:Ep; try reflexivity.
-    - destruct (cond w u); absv_same G.
+    all: destruct (pc x) as [o|o r|w|w u ch|w u ch|w u ek|w u] eqn:Ep; try reflexivity.
+    - destruct (cond w u); try (unfold ok_pc; destruct w); absv_same G.
     - destruct (closed (b s) ch); [absv_same G | reflexivity].
     - destruct (ctxc x); [absv_same G | reflexivity].
     - destruct (errq x) as [|[|] q]; [destruct (eclosed x); [absv_same G | reflexivity] | absv_same G | absv_same G].
@@ -766,11 +859,11 @@ Section MS.
               exists x0, nth_error (acts s) k = Some x0 /\ (pc x0 = WBlocked w u ch \/ (e = Eval k /\ pc x0 = WSampled w u ch))).
     { intros a y x G H Hy. apply nth_set_nth_inv in H as [(-> & -> & _)|H]; [|exists x'; auto].
       destruct Hy as [Hy|Hy]; [exists x; split; [exact G | left; congruence] | exfalso; now apply (Hy w u ch)]. }
-    destruct e as [o|w0 hc|a|a|a|a|a|a|a m|a]; cbn [Model.step] in Hk.
+    destruct e as [o|w0 hc|a|a|a|a|a|a|a m|a|a cerr]; cbn [Model.step] in Hk.
     - cbn [acts with_acts] in Hk. apply nth_error_app_inv in Hk as [Hk| ->]; [exists x'; auto | discriminate].
     - cbn [acts with_acts] in Hk. apply nth_error_app_inv in Hk as [Hk| ->]; [exists x'; auto | discriminate].
     - destruct (nth_error (acts s) a) as [x|] eqn:G; [|exists x'; auto].
-      destruct (pc x) as [o|o r|w1|w1 u1 ch1|w1 u1 ch1|w1 u1 ek] eqn:Ep; try (exists x'; auto; fail).
+      destruct (pc x) as [o|o r|w1|w1 u1 ch1|w1 u1 ch1|w1 u1 ek|w1 u1] eqn:Ep; try (exists x'; auto; fail).
       + assert (H : exists r l, nth_error (seta s a (PDone o r)) k = Some x' /\ l = tt).
         { destruct o as [|v|[|k0|k0|]]; try (eexists; exists tt; split; [exact Hk | reflexivity]);
             match type of Hk with context [if ?c then _ else _] => destruct c end; eexists; exists tt; split; try exact Hk; reflexivity. }
@@ -778,22 +871,22 @@ Section MS.
       + destruct (getch (b s)) as [b' ch']. cbn [acts] in Hk. rewrite (seta_eq _ _ _ _ G) in Hk.
         apply (Hsame _ _ _ G Hk). right. cbn [pc set_pc]. discriminate.
     - destruct (nth_error (acts s) a) as [x|] eqn:G; [|exists x'; auto].
-      destruct (pc x) as [o|o r|w1|w1 u1 ch1|w1 u1 ch1|w1 u1 ek] eqn:Ep; try (exists x'; auto; fail).
+      destruct (pc x) as [o|o r|w1|w1 u1 ch1|w1 u1 ch1|w1 u1 ek|w1 u1] eqn:Ep; try (exists x'; auto; fail).
       destruct (cond w1 u1); cbn [acts with_acts] in Hk; rewrite (seta_eq _ _ _ _ G) in Hk.
       + apply nth_set_nth_inv in Hk as [(-> & -> & _)|Hk]; [|exists x'; auto].
         cbn [pc set_pc] in Ep'. inversion Ep'; subst. exists x. split; [exact G | right; auto].
-      + apply (Hsame _ _ _ G Hk). right. cbn [pc set_pc]. discriminate.
+      + apply (Hsame _ _ _ G Hk). right. cbn [pc set_pc]. unfold ok_pc. destruct w1; discriminate.
       + apply (Hsame _ _ _ G Hk). right. cbn [pc set_pc]. discriminate.
     - destruct (nth_error (acts s) a) as [x|] eqn:G; [|exists x'; auto].
-      destruct (pc x) as [o|o r|w1|w1 u1 ch1|w1 u1 ch1|w1 u1 ek] eqn:Ep; try (exists x'; auto; fail).
+      destruct (pc x) as [o|o r|w1|w1 u1 ch1|w1 u1 ch1|w1 u1 ek|w1 u1] eqn:Ep; try (exists x'; auto; fail).
       destruct (closed (b s) ch1); [|exists x'; auto]. cbn [acts with_acts] in Hk; rewrite (seta_eq _ _ _ _ G) in Hk.
       apply (Hsame _ _ _ G Hk). right. cbn [pc set_pc]. discriminate.
     - destruct (nth_error (acts s) a) as [x|] eqn:G; [|exists x'; auto].
-      destruct (pc x) as [o|o r|w1|w1 u1 ch1|w1 u1 ch1|w1 u1 ek] eqn:Ep; try (exists x'; auto; fail).
+      destruct (pc x) as [o|o r|w1|w1 u1 ch1|w1 u1 ch1|w1 u1 ek|w1 u1] eqn:Ep; try (exists x'; auto; fail).
       destruct (ctxc x); [|exists x'; auto]. cbn [acts with_acts] in Hk; rewrite (seta_eq _ _ _ _ G) in Hk.
       apply (Hsame _ _ _ G Hk). right. cbn [pc set_pc]. discriminate.
     - destruct (nth_error (acts s) a) as [x|] eqn:G; [|exists x'; auto].
-      destruct (pc x) as [o|o r|w1|w1 u1 ch1|w1 u1 ch1|w1 u1 ek] eqn:Ep; try (exists x'; auto; fail).
+      destruct (pc x) as [o|o r|w1|w1 u1 ch1|w1 u1 ch1|w1 u1 ek|w1 u1] eqn:Ep; try (exists x'; auto; fail).
       destruct (errq x) as [|[|] q].
       + destruct (eclosed x); [|exists x'; auto]. cbn [acts with_acts] in Hk; rewrite (seta_eq _ _ _ _ G) in Hk.
         apply (Hsame _ _ _ G Hk). right. cbn [pc set_pc]. discriminate.
@@ -807,6 +900,10 @@ Section MS.
     - destruct (nth_error (acts s) a) as [x|] eqn:G; [|exists x'; auto].
       destruct (hasch x); [|exists x'; auto].
       cbn [acts with_acts] in Hk. apply (Hsame _ _ _ G Hk). left. reflexivity.
+    - destruct (nth_error (acts s) a) as [x|] eqn:G; [|exists x'; auto].
+      destruct (pc x) as [o|o r|w1|w1 u1 ch1|w1 u1 ch1|w1 u1 ek|w1 u1] eqn:Ep; try (exists x'; auto; fail).
+      destruct cerr; cbn [acts with_acts] in Hk; rewrite ?(seta_eq _ _ _ _ G) in Hk;
+        apply (Hsame _ _ _ G Hk); right; cbn [pc set_pc set_pc_start]; discriminate.
   Qed.
 
   (* Eager is kept by every step that neither is a section nor evaluates a sample *)
@@ -848,7 +945,7 @@ Section MS2.
 
   Lemma absA_wake h bb x : absA h (wake bb x) = absA h x.
   Proof.
-    unfold wake. destruct (pc x) as [o|o r|w|w u ch|w u ch|w u ek] eqn:Ep; try reflexivity.
+    unfold wake. destruct (pc x) as [o|o r|w|w u ch|w u ch|w u ek|w u] eqn:Ep; try reflexivity.
     destruct (closed bb ch); [|reflexivity]. apply absA_set_pc. now rewrite Ep.
   Qed.
 
@@ -881,8 +978,8 @@ Section MS2.
 
   (* ---- the monitor on a step without a linearization point ---- *)
   Lemma mon_nolp m ev s' :
-    mon_lp m (mon_event m ev) ev (obs s') = None ->
-    mon_event m ev = absv s' -> val s' = mcur m ->
+    mon_lp m (mon_event m ev (obs s')) ev (obs s') = None ->
+    mon_event m ev (obs s') = absv s' -> val s' = mcur m ->
     Proofs.Inv (eq_of_code (meq m)) s' -> Eager s' ->
     mon_ev m ev (obs s') = ({| meq := meq m; mcur := val s'; mas := absv s'; mprev := obs s' |}, []).
   Proof.
@@ -893,7 +990,7 @@ End MS2.
 
 Lemma hstep_nolp h m ev s' :
   MR h m -> Proofs.Inv (eq_of_code (eqc h)) s' -> Eager s' -> val s' = val (ms h) ->
-  mon_event m ev = absv s' -> mon_lp m (mon_event m ev) ev (obs s') = None ->
+  mon_event m ev (obs s') = absv s' -> mon_lp m (mon_event m ev (obs s')) ev (obs s') = None ->
   let h' := {| eqc := eqc h; ms := s' |} in
   HInv h' /\ MR h' (fst (mon_ev m ev (obs s'))) /\ snd (mon_ev m ev (obs s')) = [].
 Proof.
@@ -962,7 +1059,7 @@ Section MS3.
       pose proof (nth_error_nth_len _ _ _ G1) as Hl.
       destruct (Nat.eq_dec k a) as [->|Hne].
       + rewrite nth_error_set_nth_same in Hk by exact Hl. inversion Hk as [Hx]. clear Hk.
-        unfold wake in *. destruct (pc x1) as [o|o r|w0|w0 u0 ch0|w0 u0 ch0|w0 u0 ek] eqn:Ep0; subst x'; try congruence.
+        unfold wake in *. destruct (pc x1) as [o|o r|w0|w0 u0 ch0|w0 u0 ch0|w0 u0 ek|w0 u0] eqn:Ep0; subst x'; try congruence.
         destruct (closed (b s1) ch0) eqn:Ec; [cbn [pc set_pc] in Ep; discriminate|]. rewrite Eb in Ec. congruence.
       + rewrite nth_error_set_nth_other in Hk by exact Hne.
         destruct (step_blocked_from eqv _ _ _ _ _ _ _ Hk Ep) as (x & G & [Hx|[Hx1 _]]); [eauto | inversion Hx1; congruence].
@@ -975,6 +1072,20 @@ End MS3.
 
 Lemma nth_error_absv s a x : nth_error (acts s) a = Some x -> nth_error (absv s) a = Some (absA (vh s) x).
 Proof. intros G. unfold absv. now apply map_nth_error. Qed.
+
+(* the callback of a watcher returns *)
+Lemma absv_cbret eqv s a x w v : Proofs.Inv eqv s -> nth_error (acts s) a = Some x -> pc x = WCb w v ->
+  absv (step eqv s (CbRet a true)) = absv s /\
+  absv (step eqv s (CbRet a false)) = upd (absv s) a (next_round v (val s)).
+Proof.
+  intros (_ & (l & Hl) & Ha) G Ep. destruct (Ha _ _ G) as (_ & _ & Hp). rewrite Ep in Hp. destruct Hp as (_ & _ & Hw).
+  cbn [Model.step]. rewrite G, Ep. unfold absv. cbn [acts vh with_acts]. split.
+  - rewrite (seta_eq _ _ _ _ G). apply (map_set_nth_eq _ _ _ _ _ G). unfold absA. cbn [pc set_pc start ctxc eclosed esent].
+    now rewrite Ep.
+  - apply upd_map_set_nth with (x := x); [exact G|]. unfold absA, next_round.
+    cbn [pc set_pc_start start ctxc eclosed esent mkd mheld mcanc mclosed msent]. rewrite Ep. cbn [kind_of].
+    destruct w as [|old| |p k|cur]; try discriminate. f_equal. rewrite Hl at 1 2. now rewrite skipn_last.
+Qed.
 
 Lemma some_pair_inj {A B} (a a' : A) (b b' : B) : Some (a, b) = Some (a', b') -> a = a' /\ b = b'.
 Proof. intros H. inversion H. auto. Qed.
@@ -996,14 +1107,14 @@ Proof.
   assert (Ho : nth_error (obs s') a = Some (3 + 16 * r)%N).
   { unfold obs. rewrite F5, map_map. erewrite map_nth_error; [|rewrite E3; apply nth_error_set_nth_same; eapply nth_error_nth_len; eauto].
     reflexivity. }
-  assert (Hlp : mon_lp m (mon_event m (Some (HStep a))) (Some (HStep a)) (obs s') = Some (op, r)).
+  assert (Hlp : mon_lp m (mon_event m (Some (HStep a)) (obs s')) (Some (HStep a)) (obs s') = Some (op, r)).
   { cbn [mon_lp mon_event]. rewrite R3, (nth_error_absv _ _ _ G), R4. unfold obs at 1. rewrite (map_nth_error code _ _ G), Ho.
     unfold absA. cbn [mkd kind_of]. rewrite Ep. cbn [kind_of]. unfold code. rewrite Ep.
     rewrite st_of_code, val_of_code by reflexivity. reflexivity. }
   split; [split; assumption|].
   unfold mon_ev. cbv zeta. rewrite Hlp. cbv beta iota. rewrite R1, R2. fold eqv.
-  assert (Hml : (if (fst (cell_step eqv (val s) op) =? val s)%N then mon_event m (Some (HStep a))
-                 else map (add_held (fst (cell_step eqv (val s) op))) (mon_event m (Some (HStep a)))) = absv s').
+  assert (Hml : (if (fst (cell_step eqv (val s) op) =? val s)%N then mon_event m (Some (HStep a)) (obs s')
+                 else map (add_held (fst (cell_step eqv (val s) op))) (mon_event m (Some (HStep a)) (obs s'))) = absv s').
   { cbn [mon_event]. rewrite R3, Fabs, Eabs. reflexivity. }
   rewrite Hml. rewrite <- E1, <- F2.
   rewrite (chk_all eqv s' _ HI' HE'), app_nil_r. cbn [fst snd]. split.
@@ -1016,7 +1127,7 @@ Lemma hstep_ev_ok h m ev h' o : HInv h -> MR h m -> hstep_ev h ev = Some (h', o)
 Proof.
   intros HH HR H. pose proof HH as (HI & HE). pose proof HR as (R1 & R2 & R3 & R4).
   unfold hstep_ev in H. cbv zeta in H. set (eqv := eq_of_code (eqc h)) in *. set (s := ms h) in *.
-  destruct ev as [o0|w hc|a|a|a em].
+  destruct ev as [o0|w hc|a|a|a em|a cerr].
   - (* call *) apply some_pair_inj in H as [<- <-].
     apply (hstep_nolp h m (Some (HCall o0))); auto.
     + now apply step_inv.
@@ -1029,12 +1140,12 @@ Proof.
     + cbn [mon_event]. rewrite R3, R2. symmetry. exact (absv_call eqv s (WGate w) hc HI).
   - (* step *)
     destruct (nth_error (acts s) a) as [x|] eqn:G; [|discriminate].
-    destruct (pc x) as [op|op r|w|w u ch|w u ch|w u ek] eqn:Ep; try discriminate.
+    destruct (pc x) as [op|op r|w|w u ch|w u ch|w u ek|w u] eqn:Ep; try discriminate.
     + apply some_pair_inj in H as [<- <-]. exact (hstep_writer h m a x op HH HR G Ep).
     + (* waiter at its entry gate *)
       destruct (sect_waiter_ok eqv s a x w HI HE G Ep) as (V1 & A1 & HE1 & Hopen).
       assert (HI1 : Inv eqv (step eqv s (Sect a))) by now apply step_inv.
-      assert (Hlp : forall o', mon_lp m (mon_event m (Some (HStep a))) (Some (HStep a)) o' = None).
+      assert (Hlp : forall o', mon_lp m (mon_event m (Some (HStep a)) o') (Some (HStep a)) o' = None).
       { intros o'. apply (mon_lp_wait m _ a o' (absA (vh s) x) w); [cbn [mon_event]; rewrite R3; now apply nth_error_absv|].
         unfold absA. cbn [mkd]. now rewrite Ep. }
       destruct (negb (ctxc x) && negb (err_ready x)).
@@ -1093,6 +1204,25 @@ Proof.
       * now rewrite (step_absv_send eqv s a false x G Hch Hcl).
       * now rewrite (step_absv_send eqv s a true x G Hch Hcl).
       * now rewrite (step_absv_close eqv s a x G Hch).
+  - (* the callback of a watcher returns *)
+    destruct (nth_error (acts s) a) as [x|] eqn:G; [|discriminate].
+    destruct (pc x) as [op|op r|w|w u ch|w u ch|w u ek|w u] eqn:Ep; try discriminate.
+    apply some_pair_inj in H as [<- <-].
+    destruct (step_frame eqv s (CbRet a cerr)) as (_ & V1 & _); [discriminate|].
+    destruct (absv_cbret eqv s a x w u HI G Ep) as [A1 A2].
+    apply (hstep_nolp h m (Some (HCbRet a cerr))); auto.
+    + now apply step_inv.
+    + apply step_eager; [discriminate | discriminate | exact HE].
+    + pose proof (nth_error_nth_len _ _ _ G) as Hl.
+      destruct (watch_callback_return eqv s a x w u G Ep) as [S0 S1].
+      cbn [mon_event]. rewrite R4. unfold obs at 1. rewrite (map_nth_error code _ _ G). unfold code. rewrite Ep.
+      rewrite st_of_code, val_of_code by reflexivity. cbn [N.eqb Pos.eqb andb].
+      assert (Ho : forall b0, nth_error (obs (step eqv s (CbRet a b0))) a = Some (if b0 then 11 else 1)%N).
+      { intros [|]; [rewrite S1 | rewrite S0]; unfold obs; cbn [acts with_acts];
+          rewrite map_set_nth, nth_error_set_nth_same by (now rewrite map_length); reflexivity. }
+      rewrite Ho. destruct cerr.
+      * change ((st_of 11 =? 1)%N) with false. cbn [andb]. rewrite R3. exact (eq_sym A1).
+      * change ((st_of 1 =? 1)%N) with true. cbn [andb]. rewrite R3, R2. exact (eq_sym A2).
 Qed.
 
 Lemma hstep_ok h m e h' o : HInv h -> MR h m -> hstep h e = Some (h', o) ->
